@@ -158,3 +158,44 @@ theorem goFld_plain (io : Io) (op : Op) : ∀ (es : List Tree) (i : Nat) (ks : K
     simp [plainFields, Tree.walk.goFld, this]
 
 end MiniconfVerif.GenTie
+
+namespace MiniconfVerif.GenTie
+open MiniconfVerif MiniconfVerif.Gen MiniconfVerif.Gen.Core
+
+/-- the runtime state of an `Option<T>` in the model: `closed` = `None` (the inner tree then only carries the type) -/
+def optSelf (closed : Bool) (inner : Tree) : Option Tree := if closed then none else some inner
+
+/-- **`Option<T>`**: `None` is `Absent(0)` before any key is consumed; `Some` delegates to the value, which is put
+back after a `&mut` access -/
+theorem option_tie (io : Io) (closed : Bool) (inner : Tree) (ks : KeySrc)
+    (childSer : Tree → KeySrc → Except (Error Unit) Nat) (childDe : Tree → KeySrc → Except (Error Unit) Nat × Tree)
+    (childRef : Tree → KeySrc → Except Traversal Unit) (childMut : Tree → KeySrc → Except Traversal Unit × Tree)
+    (hs : ∀ t ks, resOfGen (childSer t ks) = (t.walk io .ser ks).res)
+    (hd : ∀ t ks, resOfGen (childDe t ks).1 = (t.walk io .de ks).res ∧ (childDe t ks).2 = (t.walk io .de ks).tree)
+    (hr : ∀ t ks, anyOfGen (childRef t ks) = anyView (t.walk io .refAny ks).res)
+    (hm : ∀ t ks, anyOfGen (childMut t ks).1 = anyView (t.walk io .mutAny ks).res ∧
+      (childMut t ks).2 = (t.walk io .mutAny ks).tree) :
+    resOfGen (Impls.Option.serialize_by_key childSer (optSelf closed inner) ks) =
+      (Tree.walk io .ser (.gate .option closed inner) ks).res ∧
+    (let r := Impls.Option.deserialize_by_key childDe (optSelf closed inner) ks
+     resOfGen r.2 = (Tree.walk io .de (.gate .option closed inner) ks).res ∧
+     (match r.1 with
+      | some t' => Tree.gate .option false t' = (Tree.walk io .de (.gate .option closed inner) ks).tree
+      | none => Tree.gate .option true inner = (Tree.walk io .de (.gate .option closed inner) ks).tree)) ∧
+    anyOfGen (Impls.Option.ref_any_by_key childRef (optSelf closed inner) ks) =
+      anyView (Tree.walk io .refAny (.gate .option closed inner) ks).res ∧
+    (let r := Impls.Option.mut_any_by_key childMut (optSelf closed inner) ks
+     anyOfGen r.2 = anyView (Tree.walk io .mutAny (.gate .option closed inner) ks).res ∧
+     (match r.1 with
+      | some t' => Tree.gate .option false t' = (Tree.walk io .mutAny (.gate .option closed inner) ks).tree
+      | none => Tree.gate .option true inner = (Tree.walk io .mutAny (.gate .option closed inner) ks).tree)) := by
+  cases closed with
+  | true =>
+    simp [optSelf, Impls.Option.serialize_by_key, Impls.Option.deserialize_by_key, Impls.Option.ref_any_by_key,
+      Impls.Option.mut_any_by_key, Tree.walk, gateErr, resOfGen, anyOfGen, anyView, travOfGen]
+  | false =>
+    simp only [optSelf, Bool.false_eq_true, if_false, Impls.Option.serialize_by_key, Impls.Option.deserialize_by_key,
+      Impls.Option.ref_any_by_key, Impls.Option.mut_any_by_key, Tree.walk, gateErr]
+    exact ⟨hs _ _, ⟨(hd _ _).1, by rw [(hd _ _).2]⟩, hr _ _, ⟨(hm _ _).1, by rw [(hm _ _).2]⟩⟩
+
+end MiniconfVerif.GenTie
